@@ -85,6 +85,17 @@ func c08KnownVids(hist []*prog.Step) map[string][]string {
 	return m
 }
 
+// version ids of the copy source "src"
+func c08SrcVids(hist []*prog.Step) []string {
+	var v []string
+	for _, s := range hist {
+		if s.Op.Kind == "putObject" && s.Op.K == "src" && s.Obs.Code == "" && s.Obs.NewVid != "" {
+			v = append(v, s.Obs.NewVid)
+		}
+	}
+	return v
+}
+
 const c08Big = 5 * 1024 * 1024
 
 func c08Next(versioned bool) func(g *prog.Gen, idx int, hist []*prog.Step) *prog.Op {
@@ -103,6 +114,11 @@ func c08Next(versioned bool) func(g *prog.Gen, idx int, hist []*prog.Step) *prog
 			return &prog.Op{Kind: "putObject", Caller: "root", B: b, K: "src", Put: &prog.PutSpec{Data: []prog.Seg{{Seed: 9000 + idx, Off: 0, Len: 3000}}}, Valid: true}
 		case 2:
 			return &prog.Op{Kind: "putObject", Caller: "root", B: b, K: "src", Put: &prog.PutSpec{Data: []prog.Seg{{Seed: 9500 + idx, Off: 0, Len: 3000}}}, Valid: true}
+		case 3:
+			if versioned {
+				// a second, shorter (or longer) version of the copy source: parts are also copied from the older one
+				return &prog.Op{Kind: "putObject", Caller: "root", B: b, K: "src", Put: &prog.PutSpec{Data: []prog.Seg{{Seed: 9700 + idx, Off: 0, Len: []int{1700, 4100}[idx%2]}}}, Valid: true}
+			}
 		}
 		ups := c08Uploads(hist)
 		if n >= total {
@@ -174,6 +190,10 @@ func c08Next(versioned bool) func(g *prog.Gen, idx int, hist []*prog.Step) *prog
 			return &prog.Op{Kind: "createUpload", Caller: caller, B: b, K: k, Put: p, Valid: true}
 		case r < 45:
 			u := pick()
+			if len(open) > 0 && g.R.Chance(7) {
+				// an EMPTY upload id for a key that has uploads in progress: it names no upload
+				u = &c08Upload{key: open[g.R.Intn(len(open))].key, id: "", parts: map[int]string{}, sizes: map[int]int{}}
+			}
 			num := 1 + g.R.Intn(4)
 			size := g.R.Intn(2000)
 			// a few programs use parts at the 5 MiB boundary so that multi-part completes can succeed
@@ -188,6 +208,9 @@ func c08Next(versioned bool) func(g *prog.Gen, idx int, hist []*prog.Step) *prog
 		case r < 55:
 			u := pick()
 			o := &prog.Op{Kind: "uploadPartCopy", Caller: caller, B: b, K: u.key, UpID: u.id, Num: 1 + g.R.Intn(4), SB: b, SK: "src"}
+			if sv := c08SrcVids(hist); versioned && len(sv) > 0 && g.R.Chance(60) {
+				o.SVid = sv[g.R.Intn(len(sv))]
+			}
 			switch g.R.Intn(7) {
 			case 5, 6:
 				o.Range = &[2]int{g.R.Intn(3000), -1} // open-ended: bytes=a-
@@ -265,13 +288,14 @@ func c08Classify(s *prog.Step, class string) (string, string) {
 }
 
 func init() {
-	fam := func(name string, versioned, noOTmp bool, off int64, q, t int) checkFn {
+	fam := func(name string, versioned, noOTmp, sidecar bool, off int64, q, t int) checkFn {
 		return func(a lib.Args, res *lib.Result) error {
 			return runPrograms(a, res, progOpts{name: name, prop: "C08", programs: tierN(a, q, t), next: c08Next(versioned), versioning: versioned,
-				noOTmp: noOTmp, nGateways: 2, classify: c08Classify, seedOff: off})
+				noOTmp: noOTmp, sidecar: sidecar, nGateways: 2, classify: c08Classify, seedOff: off})
 		}
 	}
 	checks["c08"] = checkDef{"C08",
-		"adaptive programs of create / upload-part (numbers 1-4, re-uploads, sizes 0-2000 and 5 MiB±1, four payload encodings) / upload-part-copy (no range, whole, inner, single byte, end beyond source) / list-parts / list-uploads / complete (all parts, a subset, wrong order, a never-uploaded number, a wrong ETag) / abort over several uploads incl. several for one key, interleaved with plain PUT/GET of the same keys, on unversioned and versioned buckets, over two gateway processes; upload ids and ETags are read from the implementation's answers. Compared with Model.Gw.step. Non-trivial = program reaches the bucket; distinct by op list.",
-		[]checkFn{fam("mp-unversioned", false, false, 801, 150, 4000), fam("mp-versioned-namedtmp", true, true, 802, 50, 1500)}}
+		"adaptive programs of create / upload-part (numbers 1-4, re-uploads, sizes 0-2000 and 5 MiB±1, four payload encodings) / upload-part-copy (no range, whole, inner, single byte, end beyond source) / list-parts / list-uploads / complete (all parts, a subset, wrong order, a never-uploaded number, a wrong ETag) / abort over several uploads incl. several for one key, interleaved with plain PUT/GET of the same keys, on unversioned and versioned buckets (copy sources named by version id as well), with the xattr and the sidecar metadata store, uploads created with a FULL_OBJECT checksum, an empty upload id, over two gateway processes; upload ids and ETags are read from the implementation's answers. Compared with Model.Gw.step. Non-trivial = program reaches the bucket; distinct by op list.",
+		[]checkFn{fam("mp-unversioned", false, false, false, 801, 150, 4000), fam("mp-versioned-namedtmp", true, true, false, 802, 50, 1500),
+			fam("mp-sidecar", false, false, true, 803, 40, 1200), fam("mp-versioned-sidecar", true, false, true, 804, 25, 800)}}
 }
